@@ -416,6 +416,35 @@ def check(run):
         exp = dict((k, [f(r) for r in (0.5, 1.0, 2.0)]) for k, f in want.items())
         if got != exp:
             run.fail("custom-form-meaning", "%s: the potentials evaluate to %s at r = 0.5, 1, 2; binding the parameters positionally gives %s" % (what, got, exp), dict(potable_file=cfg))
+    # ---- (C') a failed evaluation followed by continued use: a custom form left its domain once (a scan past the point where the square root or the logarithm is
+    #      defined; the caller caught the error): every later use of that form - the same pair inside its domain, another pair using the form, a sum() holding it, a
+    #      second form calling it - evaluates the formula as before (round-8 seed C09_14: a re-entrancy flag that an exception leaves set)
+    for rep in range(run.n(3, 20)):
+        a0 = round(rng.uniform(1.5, 3.0), 2)
+        cfg = ("[Tabulation]\ntarget : LAMMPS\ncutoff : 4.0\nnr : 9\n\n[Potential-Form]\nsqroot(r, a) = pymath.sqrt(a - r)\nlg(r, a) = pymath.log(a - r) + 1\n"
+               "outer(r, a) = 2 * sqroot(r, a) + 1\n\n[Pair]\nA-B : >=0 sqroot %r\nA-C : >=0 sqroot %r\nA-D : >=0 sum(sqroot %r, as.constant 1.0)\nA-E : >=0 outer %r\nA-F : >=0 lg %r\n"
+               % (a0, a0 + 1.0, a0, a0, a0))
+        run.case(key=("after-failure", cfg), kind="custom-forms/after-failed-evaluation")
+        run.traces += 1
+        try:
+            pots = dict((p_.speciesB, p_) for p_ in Configuration().read(io.StringIO(cfg)).potentials)
+            fresh = dict((k_, p_.energy(1.0)) for k_, p_ in pots.items())
+            nraised = 0
+            for k_ in ("B", "F", "E"):
+                for r_ in (a0 + 0.5, a0 + 1.5):
+                    try:
+                        pots[k_].energy(r_)
+                    except Exception:
+                        nraised += 1
+            again = dict((k_, p_.energy(1.0)) for k_, p_ in pots.items())
+        except Exception as e:
+            run.fail("custom-form-meaning", "custom forms evaluated inside their domain raised %s: %s" % (type(e).__name__, str(e)[:200]), dict(potable_file=cfg))
+            continue
+        want = {"B": math.sqrt(a0 - 1.0), "C": math.sqrt(a0), "D": math.sqrt(a0 - 1.0) + 1.0, "E": 2 * math.sqrt(a0 - 1.0) + 1, "F": math.log(a0 - 1.0) + 1}
+        bad_ = [(k_, again.get(k_), want[k_]) for k_ in want if not close(again.get(k_, float("nan")), want[k_], 1e-12, 1e-12)]
+        if nraised == 0 or fresh != again or bad_:
+            run.fail("custom-form-meaning", "after %d evaluations outside the forms' domain (caught by the caller) the potentials evaluate to %s at r = 1; before: %s; the formulas give %s"
+                     % (nraised, again, fresh, want), dict(potable_file=cfg))
     # ---- (D) pymath --------------------------------------------------------------------------------------------------------------
     table = [("acos(0.25)", math.acos(0.25)), ("ceil(4.2)", 5.0), ("cosh(1.5)", math.cosh(1.5)), ("exp(2.5)", math.exp(2.5)),
              ("ldexp(3.5, 4)", 56.0), ("log(10)", math.log(10)), ("log(8, 2)", math.log(8, 2)),
